@@ -1,3 +1,4 @@
+import SF.Lemmas.ReadyStable
 import SF.Props.C02
 import SF.Props.C04
 import SF.Props.C13
@@ -225,5 +226,28 @@ theorem binop_ready_iff (f : α → α → M α) (hf : ∀ x y, ∃ r, f x y = .
     | some y =>
       obtain ⟨r, hr⟩ := hf x y
       simp [ha, hb, hr, bind, Except.bind, pure, Except.pure]
+
+/-! ### readiness never reverts: one-step form, from ANY state, and its closure under chaining -/
+section stable
+variable [Transc α]
+/-- once `last()` reports a value, one more update cannot make it report `None` — for these cores from any state whatsoever
+(Rsi, MyRSI, Alma, CoG, LaguerreFilter, WelfordOnline/Vst/Vsct, RoofingFilter follow from their first-ready index above) -/
+theorem core_readyStable (N : Nat) (c a : α) :
+    (gteCore c).ReadyStable ∧ (lteCore c).ReadyStable ∧ (drawdownCore (α := α)).ReadyStable ∧
+    (welfordRollingCore (α := α)).ReadyStable ∧ (emaCore N a).ReadyStable ∧ (smaCore (α := α) N).ReadyStable ∧
+    (cumCore (α := α) N).ReadyStable ∧ (minCoreU (α := α) N).ReadyStable ∧ (maxCoreU (α := α) N).ReadyStable ∧
+    (rocCore (α := α) N).ReadyStable ∧ (hlnCore (α := α) N).ReadyStable ∧ (ctiCore (α := α) N).ReadyStable ∧
+    (cogCore (α := α) N).ReadyStable ∧ (bentCore (α := α) N).ReadyStable ∧ (ssCore (α := α) N).ReadyStable :=
+  ⟨Ready.gte c, Ready.lte c, Ready.drawdown, Ready.welfordRolling, Ready.ema N a, Ready.sma N, Ready.cum N, Ready.min N,
+    Ready.max N, Ready.roc N, Ready.hln N, Ready.cti N, Ready.cog N, Ready.entropy N, Ready.superSmoother N⟩
+
+/-- **a chain's readiness never reverts if its outermost core's does not** — whatever the inner view does -/
+theorem chain_readyStable (A : View α) (B : Core α) (hB : B.ReadyStable) : (wrap A B).ReadyStable :=
+  Ready.wrap_readyStable A B hB
+
+/-- Tanh keeps the readiness of its child -/
+theorem tanh_readyStable (A : View α) (hA : A.ReadyStable) : (mapV Transc.tanh A).ReadyStable :=
+  Ready.mapV_readyStable _ A hA
+end stable
 
 end SF.C08
